@@ -23,12 +23,12 @@ func init() {
 				Flavours: []string{"plain", "cover"},
 				Blocks:   32,
 				Procs:    16,
-				Rule: "case = (beta, comparator granularity, bulk-New keys, phase-structured history of Add/Replace/Remove/Clear/Clone over up to 3 live trees). " +
+				Rule: "(i) rebuild sweep (seed-independent): the delete-side whole-tree rebuild is forced to run at exactly size s for every s <= 400 (2500 thorough) and for 2^k-3..2^k+3, k <= 13 (16), and the contents are compared afterwards; (ii) case = (beta, comparator granularity incl. comparators that return differences instead of -1/0/+1, bulk-New keys, phase-structured history of Add/Replace/Remove/Clear/Clone over up to 3 live trees). " +
 					"Phases: ascending / descending / zig-zag / random inserts, mixed random ops, drains (to empty, to 1/8, to 1/2; ascending, descending, random order), forced two-child removals followed by Get of the promoted successor, Clear, Clone. " +
 					"After EVERY call: Len, IsEmpty, Min, Max, full Inorder (with stored tags), Inorder early stop, Get for all/sampled keys, InorderAfter for sampled keys with early stop. " +
 					"beta: quick uses {0,1,2,50,100,250,500,750,999,1000}; thorough additionally sweeps every beta in 0..1000. " +
 					"distinct = hash of (beta, div, every op with its key); non-trivial = the history contained a scapegoat rebuild on insert, a delete-side whole rebuild, or a two-child removal (detected from the tree shape read through Root/Left/Right)",
-				Required:     []string{"insert_rebuilds", "delete_rebuilds", "two_child_removals", "new_with_duplicates", "clones", "replace_existing", "steps"},
+				Required:     []string{"insert_rebuilds", "delete_rebuilds", "two_child_removals", "new_with_duplicates", "clones", "replace_existing", "steps", "histories_with_wide_comparator", "rebuilds_at_exact_size"},
 				Assumptions:  []string{"reference model: sorted slice with textbook set semantics", "tree shape for reach counters is read through stree.Cursor (checked separately by C03)"},
 				CoverPkgs:    []string{"github.com/creachadair/mds/stree"},
 				CoverAnchors: []string{"stree/stree.go", "stree/node.go"},
@@ -321,7 +321,84 @@ func (h *c01hist) rangeOf(ti int) (lo, hi int) {
 	return es[0].Key, es[len(es)-1].Key
 }
 
+// c01rebuildSweep: whole-tree rebuilds at exact sizes (every size up to a few
+// hundred and a window around every power of two), contents compared after
+// the rebuild and after a few further edits.
+func c01rebuildSweep(c *fw.Ctx, base int) {
+	sizes := rebuildSizes(c.Pick(400, 2500), c.Pick(13, 16))
+	for si, s := range sizes {
+		if si%c.NBlocks != c.Block {
+			continue
+		}
+		if !c.Begin(base + si) {
+			continue
+		}
+		for _, beta := range []int{1000, 500} {
+			if beta == 500 && s > 2100 {
+				continue
+			}
+			fromLow := (s+beta)%2 == 0
+			data := map[string]any{"scenario": "bulk New, drain from one end until the delete-side rebuild runs", "rebuild_at_size": s, "beta": beta, "drain_from_low_end": fromLow}
+			ok, pv, stack := fw.Try(func() {
+				t, remaining, prob := rebuildAtSize(s, beta, fromLow, c.Step)
+				if t == nil {
+					return
+				}
+				if prob != "" {
+					c.Fail(data, "%s", prob)
+					return
+				}
+				c.Add("rebuilds_at_exact_size", 1)
+				check := func(what string) bool {
+					i := 0
+					bad := false
+					t.Inorder(func(e Elem) bool {
+						if i >= len(remaining) || e.Key != remaining[i] {
+							bad = true
+							return false
+						}
+						i++
+						return true
+					})
+					if bad || i != len(remaining) || t.Len() != len(remaining) {
+						c.Fail(data, "%s: Inorder/Len disagree with the %d keys that remain (Len=%d, first mismatch at position %d)", what, len(remaining), t.Len(), i)
+						return false
+					}
+					if len(remaining) > 0 && (t.Min().Key != remaining[0] || t.Max().Key != remaining[len(remaining)-1]) {
+						c.Fail(data, "%s: Min/Max = %v/%v", what, t.Min(), t.Max())
+						return false
+					}
+					return true
+				}
+				if !check("after the rebuild") {
+					return
+				}
+				// a few further edits: an absent key in the middle, the extremes
+				if len(remaining) > 0 {
+					mid := remaining[len(remaining)/2] + 1
+					if !t.Add(Elem{Key: mid, Tag: -1}) {
+						c.Fail(data, "Add of an absent key after the rebuild reports false")
+						return
+					}
+					if got, ok := t.Get(Elem{Key: mid}); !ok || got.Tag != -1 {
+						c.Fail(data, "Get of the key just added after the rebuild fails")
+						return
+					}
+					if !t.Remove(Elem{Key: mid}) || !check("after Add+Remove following the rebuild") {
+						return
+					}
+				}
+			})
+			if !ok {
+				c.FailKind("panic", data, "panic: %v\n%s", pv, stack)
+			}
+		}
+		c.SeenEnum(1)
+	}
+}
+
 func runC01(c *fw.Ctx) {
+	c01rebuildSweep(c, 1<<20)
 	betas := []int{0, 1, 2, 50, 100, 250, 500, 750, 999, 1000}
 	ncases := c.Pick(110, 900)
 	for i := 0; i < ncases; i++ {
@@ -357,6 +434,10 @@ func runC01(c *fw.Ctx) {
 func c01history(h *c01hist, caseIdx int) {
 	r := h.r
 	ref := &refSet{div: h.div}
+	if r.IntN(3) == 0 {
+		ref.wide = 1 + r.IntN(3) // a comparator that returns differences, not just -1/0/+1
+		h.c.Add("histories_with_wide_comparator", 1)
+	}
 	cmp := ref.cmp
 	// Bulk construction with unsorted, duplicated keys (or empty).
 	var keys []Elem
